@@ -2,7 +2,7 @@
    flags visible when close returns), independently of the model's program counters.
    Definitions only. *)
 From Coq Require Import List Bool Arith ZArith.
-From AL Require Import C17.Model.
+From AL Require Import C17.Model C17.Inv.
 Import ListNotations.
 
 (* ---- "consecutive chunks of exactly n samples whose concatenation is the iterable followed by
@@ -97,3 +97,46 @@ Definition close_ok (expected : list (list chunk)) (evs : list event) : bool :=
 (* "no player thread is alive" whenever a close returns *)
 Definition nobody_alive (evs : list event) : bool :=
   forallb (fun e => match e with ECloseRet fl => forallb (fun x => negb (fst x)) fl | _ => true end) evs.
+
+(* ================= the property on the states of the model =================
+   (pc classes m_msec / pc_msec / ... are the critical sections defined in Inv.v) *)
+
+(* thread tid is inside a critical section of manager.lock / of player i's lock / of manager.halting *)
+Definition in_mlock (s : state) (tid : nat) : Prop :=
+  match tid with
+  | O => m_msec (smpc s) = true
+  | S i => exists p, get_player s i = Some p /\ pc_msec (ppc_ p) = true
+  end.
+Definition in_tlock (s : state) (i tid : nat) : Prop :=
+  match tid with
+  | O => m_tsec (smpc s) = Some i
+  | S j => j = i /\ exists p, get_player s i = Some p /\ pc_tsec (ppc_ p) = true
+  end.
+Definition in_hlock (s : state) (tid : nat) : Prop := tid = 0 /\ m_hsec (smpc s) = true.
+
+Definition mutex_at (s : state) : Prop :=
+  (forall tid, in_mlock s tid <-> smlock s = Some tid)
+  /\ (forall i p, get_player s i = Some p -> forall tid, in_tlock s i tid <-> ptlock p = Some tid)
+  /\ (forall tid, in_hlock s tid <-> shlock s = Some tid).
+
+(* a close() call has been entered and has not returned / some close() has returned *)
+Definition in_close (s : state) : Prop := m_hsec (smpc s) = true \/ smpc s = MCloseAcqH.
+Definition close_returned (s : state) : Prop := sfinished s = true /\ m_hsec (smpc s) = false.
+
+(* everything the text promises once close has returned *)
+Definition after_close_at (s : state) : Prop :=
+  (forall i p, get_player s i = Some p -> popen p = false /\ ppc_ p = PDone)   (* streams closed, nobody alive *)
+  /\ sterminated s = 1
+  /\ sthreads s = []
+  /\ (forall a, smpc s = MPlayAcq a ->                                          (* a later play raises *)
+       forall s', step s 0 = Some s' -> smpc s' = MPlayRaiseRel /\ splayers s' = splayers s).
+
+Definition stuck (s : state) : Prop := forall tid, step s tid = None.
+Definition script_done (s : state) : Prop := smpc s = MDone.
+
+(* all-enabled schedules (every chosen thread can move) *)
+Fixpoint valid_sched (s : state) (sched : list nat) : Prop :=
+  match sched with
+  | [] => True
+  | t :: r => match step s t with Some s' => valid_sched s' r | None => False end
+  end.
